@@ -90,7 +90,14 @@ func classifyC05(r c05res, secret []byte, hist [][]byte) string {
 	if errors.As(r.err, &ne) {
 		return "failed net-error"
 	}
-	return "failed parse"
+	// "that datagram's error": a parse error is the error Parse gives for one of the datagrams that were sent
+	// (compared by text: they are errors.New values); anything else is not the error of a datagram
+	for _, d := range hist {
+		if _, perr := radius.Parse(trunc4096(d), secret); perr != nil && perr.Error() == r.err.Error() {
+			return "failed parse"
+		}
+	}
+	return "failed other-error"
 }
 
 // runC05 performs one exchange against the scripted peer.  slow=true adds conservative pacing.
